@@ -114,6 +114,7 @@ func blockIf(b *ssa.BasicBlock) *ssa.If {
 // passing truth value is `want`.
 func EdgesWhere(fn *ssa.Function, pred func(base ssa.Value) (bool, bool)) []Edge {
 	out := edgesWhereIfs(fn, pred)
+	out = append(out, edgesThroughBoolHelpers(fn, pred, 0)...)
 	// a condition handed to a require-style helper (`if err := requireX(cond); err != nil { return err }`): on the nil
 	// edge of the helper's error the condition has the truth value the helper insists on
 	for _, b := range fn.Blocks {
@@ -156,6 +157,93 @@ func EdgesWhere(fn *ssa.Function, pred func(base ssa.Value) (bool, bool)) []Edge
 						return bo.Op == token.EQL, true
 					})...)
 				}
+			}
+		}
+	}
+	return out
+}
+
+// edgesThroughBoolHelpers: a branch on the result of a bool-returning module helper (`if noInflation(supply, end, now)`)
+// passes the guard on the edge for answer r when, inside the helper (its conditions read in fn's terms), every way of
+// answering r lies behind a passing edge of the guard: each return whose value may be r - per incoming edge of a
+// short-circuit phi - is dominated by one.
+func edgesThroughBoolHelpers(fn *ssa.Function, pred func(base ssa.Value) (bool, bool), depth int) []Edge {
+	if depth > 1 {
+		return nil
+	}
+	var out []Edge
+	for _, b := range fn.Blocks {
+		i := blockIf(b)
+		if i == nil {
+			continue
+		}
+		base, neg := stripNot(i.Cond)
+		call, ok := base.(*ssa.Call)
+		if !ok {
+			continue
+		}
+		h := boolHelper(call)
+		if h == nil || h == fn {
+			continue
+		}
+		bind := bindParams(h, call)
+		lifted := func(v ssa.Value) (bool, bool) {
+			tv := translateValue(v, bind, 0)
+			if tv == v {
+				if _, isConst := v.(*ssa.Const); !isConst {
+					// not expressed over the helper's parameters: not a statement about the caller's values
+					if _, isCall := v.(*ssa.Call); !isCall {
+						return false, false
+					}
+				}
+			}
+			return pred(tv)
+		}
+		inner := edgesWhereIfs(h, lifted)
+		inner = append(inner, edgesThroughBoolHelpers(h, lifted, depth+1)...)
+		if len(inner) == 0 {
+			continue
+		}
+		for _, r := range []bool{true, false} {
+			all, n := true, 0
+			for _, ret := range Returns(h) {
+				rv := retVals(ret)
+				if len(rv) != 1 {
+					all = false
+					break
+				}
+				// the ways this return can yield r
+				type way struct {
+					blk *ssa.BasicBlock
+				}
+				var ways []way
+				if phi, isPhi := rv[0].(*ssa.Phi); isPhi && phi.Block() == ret.Block() {
+					for k, e := range phi.Edges {
+						if c, isC := constBool(e); isC && c != r {
+							continue
+						}
+						ways = append(ways, way{phi.Block().Preds[k]})
+					}
+				} else {
+					if c, isC := constBool(rv[0]); isC && c != r {
+						continue
+					}
+					ways = append(ways, way{ret.Block()})
+				}
+				for _, wy := range ways {
+					n++
+					if !MustPass(h, inner, wy.blk) {
+						all = false
+					}
+				}
+			}
+			if all && n > 0 {
+				// answer r: the true edge of the branch when r (xor negation)
+				succ := 0
+				if r == neg {
+					succ = 1
+				}
+				out = append(out, Edge{b, succ})
 			}
 		}
 	}
